@@ -29,7 +29,7 @@ def main():
     for key, r in sorted(keys.items()):
         if (prop, key) in have:
             continue
-        hit = [t for t in TRIAGE.get(prop, []) if all(s in key for s in t["match"])]
+        hit = [t for t in TRIAGE.get(prop, []) if all((s[1:] not in key) if s.startswith("!") else (s in key) for s in t["match"])]
         if len(hit) != 1:
             missing.append((key, len(hit)))
             continue
